@@ -24,7 +24,6 @@ Check C08_n : forall c glen ms kept dropped, partition c glen ms = Ok (kept, dro
                 Permutation (ks ++ ds) (subgroups c (survivors c glen ms)) /\
                 Nat.min (nkeep c) (length (subgroups c (survivors c glen ms))) <= length ks.
 Check C08_rank : forall c glen ms kept dropped, partition c glen ms = Ok (kept, dropped) ->
-  tb_last (prio c) ->
   exists order : list (nat * sub),
     Permutation order (indexed (subgroups c (survivors c glen ms))) /\
     StronglySorted (lex_lt (prio c)) order /\
@@ -35,9 +34,6 @@ Check C08_rank : forall c glen ms kept dropped, partition c glen ms = Ok (kept, 
     kept = concat (forced_kept ++ firstn quota droppable).
 Check C08_rank_unique : forall c glen ms k1 d1 k2 d2 o1 o2,
   rank_spec c glen ms k1 d1 o1 -> rank_spec c glen ms k2 d2 o2 -> o1 = o2 /\ k1 = k2 /\ d1 = d2.
-Check C08_K9_witness : ~ tb_last (prio k9_cfg) /\
-  exists kept dropped, partition k9_cfg 4 k9_group = Ok (kept, dropped) /\
-    ~ exists order, rank_spec k9_cfg 4 k9_group kept dropped order.
 Check C08_inherit : forall h c glen ms,
   n_opt c = None -> iso c = [] -> mlinks c = false -> no_size c = false -> mbefore c = None ->
   partition (merge h c) glen ms = partition (explicit h c) glen ms.
